@@ -5,7 +5,7 @@ from props import solverstream as ss, tracecheck as tc, enctie, antie, solvertie
 THEOREMS = ["C02_reference_correct", "C02_facts_hold", "C02_rup_sound", "C02_refutation_sound",
             "C02_trace_no_false_unsat", "C02_solvable_not_refuted",
             "C02_encoder_adds_facts", "C02_encoder_sound", "C02_analyze_sound", "C02_analyses_entail",
-            "C02_unsolvable_core_refutes", "C02_checked_propagate_sound", "C02_solver_model_holds_only_facts", "C02_analysis_ok_on_structured_trails", "C02_solver_model_no_false_unsat"]
+            "C02_unsolvable_core_refutes", "C02_checked_propagate_sound", "C02_solver_model_holds_only_facts", "C02_analysis_ok_on_structured_trails", "C02_solver_model_no_false_unsat", "C02_solver_model_side_conditions_hold", "C02_solver_model_never_false_unsat"]
 CHECKER = ("coqc Props/C02.v + Print Assumptions; harness solve_cases (debug+release, sync+yield, several activity "
            "parameters): (a) hook logs of every Unsolvable -> extracted check_unsat_log (facts, RUP of every learnt clause "
            "from its recorded antecedents, root-level conflict), (b) verdict compared with extracted u_solvableb, (c) extracted "
